@@ -218,6 +218,10 @@ fn noncanonical(seg: &str, r: &mut StdRng, cap: usize) -> Vec<String> {
                 // stay non-canonical: one more char makes len % 4 == 1 only for n % 4 == 0
             }
         }
+        // the standard-alphabet twins of the two url-safe symbols, at every place they occur (up to 24)
+        for (idx, ch) in seg.chars().enumerate().filter(|(_, ch)| *ch == '-' || *ch == '_').take(24) {
+            out.push(subst_char(seg, idx, if ch == '-' { '+' } else { '/' }));
+        }
         for c in ['+', '/', '*', ',', '\0', 'é', '%'] {
             for idx in sample_positions(n, cap.min(6), r) {
                 out.push(subst_char(seg, idx, c));
